@@ -208,8 +208,8 @@ Theorem strict_eq_spec v w : basic v = true -> basic w = true ->
   exists b, strict_eq v w = Ok b /\ (b = true <-> same_value v w).
 Proof.
   intros Hv Hw.
-  destruct v as [|a|x|s| | | | | | | | | |]; try discriminate Hv;
-  destruct w as [|b|y|t| | | | | | | | | |]; try discriminate Hw;
+  destruct v as [|a|x|s| | | | | | | | | | |]; try discriminate Hv;
+  destruct w as [|b|y|t| | | | | | | | | | |]; try discriminate Hw;
   try (exists false; split; [reflexivity|cbn [same_value]; split; [discriminate|contradiction]]).
   - exists true. split; [reflexivity|]. cbn. tauto.
   - exists (Bool.eqb a b). split; [apply strict_eq_bool|]. cbn [same_value]. apply eqb_true_iff.
@@ -222,8 +222,8 @@ Theorem strict_eq_diff_kind_false v w : basic v = true -> basic w = true ->
   kind_of v <> kind_of w -> strict_eq v w = Ok false.
 Proof.
   intros Hv Hw Hk.
-  destruct v as [|a|x|s| | | | | | | | | |]; try discriminate Hv;
-  destruct w as [|b|y|t| | | | | | | | | |]; try discriminate Hw;
+  destruct v as [|a|x|s| | | | | | | | | | |]; try discriminate Hv;
+  destruct w as [|b|y|t| | | | | | | | | | |]; try discriminate Hw;
   try reflexivity; exfalso; apply Hk; reflexivity.
 Qed.
 
@@ -259,8 +259,8 @@ Theorem loose_eq_same_kind v w : plain v = true -> plain w = true -> kind_of v =
   loose_eq v w = strict_eq v w.
 Proof.
   intros Hv Hw Hk.
-  destruct v as [|a|x|s| | | | | | | | | |]; try discriminate Hv;
-  destruct w as [|b|y|t| | | | | | | | | |]; try discriminate Hw; try discriminate Hk.
+  destruct v as [|a|x|s| | | | | | | | | | |]; try discriminate Hv;
+  destruct w as [|b|y|t| | | | | | | | | | |]; try discriminate Hw; try discriminate Hk.
   - reflexivity.
   - rewrite strict_eq_bool. destruct a, b; reflexivity.
   - reflexivity.
